@@ -118,8 +118,18 @@ impl<K: Abs, V: Abs> Abs for UMap<K, V> {
 pub trait SFull: Abs + Serialize + for<'de> Deserialize<'de> {}
 impl<T: Abs + Serialize + for<'de> Deserialize<'de>> SFull for T {}
 
+use crate::c20::VecSink;
+
+#[cfg(feature = "alloc")]
 fn ser<T: Serialize>(v: &T) -> Result<Vec<u8>, String> {
     minicbor_serde::to_vec(v).map_err(|e| e.to_string())
+}
+#[cfg(not(feature = "alloc"))]
+fn ser<T: Serialize>(v: &T) -> Result<Vec<u8>, String> { ser_sink(v) }
+/// Serialise through Serializer::new over the harness' own sink (the same call in every configuration).
+pub fn ser_sink<T: Serialize>(v: &T) -> Result<Vec<u8>, String> {
+    let mut s = minicbor_serde::Serializer::new(VecSink(Vec::new()));
+    match v.serialize(&mut s) { Ok(()) => Ok(s.into_encoder().into_writer().0), Err(e) => Err(e.to_string()) }
 }
 
 /// Deserialise `b` as T through the bridge: value, the decoder's position afterwards, and the re-serialisation of the value.
@@ -142,7 +152,9 @@ pub fn sdecode_report<T: SFull>(b: &[u8]) -> Value {
 /// The bridge's DecodeError hides the minicbor error; its Display text names the class.
 pub fn serr_class(e: &minicbor_serde::error::DecodeError) -> &'static str {
     let s = e.to_string();
-    if s.contains("end of input") { "eoi" } else if s.contains("unexpected type") { "type" } else { "msg" }
+    if s.starts_with("end of input bytes") { "eoi" } else if s.starts_with("unexpected type") { "type" }
+    else if s.starts_with("invalid char") || s.starts_with("invalid utf-8") || s.contains("overflows target type") { "other" }
+    else if s.starts_with("unexpected tag") { "tag" } else { "msg" }
 }
 
 /// Events for one random value of T: "rt" (serialise, deserialise back), "alt" (a re-framed encoding of the same item), "mut" (totality).
@@ -185,6 +197,9 @@ pub fn matches(obs: &Value, exp: &Value) -> bool {
         && obs["reenc_ok"] == true && (exp["reenc"].is_null() || obs["reenc"] == exp["reenc"])
 }
 
+#[cfg(feature = "full")]
+mod both {
+use super::*;
 // ---- C18: the types both codecs know ------------------------------------------------------------------------------
 pub trait Both: crate::types::Full + Serialize + for<'de> Deserialize<'de> {}
 impl<T: crate::types::Full + Serialize + for<'de> Deserialize<'de>> Both for T {}
@@ -244,6 +259,10 @@ shared!(
     "btreemapu8string" => BTreeMap<u8, String>, "btreemapstringvecu8" => BTreeMap<String, Vec<u8>>, "hashmapu16bool" => HashMap<u16, bool>, "hashmapstringi64" => HashMap<String, i64>,
     "vectup" => Vec<(u8, Option<String>)>, "maptuple" => BTreeMap<u8, (i8, f64)>,
 );
+
+}
+#[cfg(feature = "full")]
+pub use both::*;
 
 /// Replayed C18 case: both decoders give the specification's value at the specification's position (`must`), or - for
 /// re-framings a side may refuse - that value or an error.
